@@ -3,6 +3,7 @@ package main
 // Dominating-guard extraction on SSA (path-insensitive, by dominance).
 
 import (
+	"fmt"
 	"go/constant"
 	"go/token"
 	"go/types"
@@ -422,4 +423,79 @@ func condsHoldFor(conds []domCond, leaf func(ssa.Value) (int64, bool)) bool {
 		}
 	}
 	return true
+}
+
+// bigNarrowRule: a *big.Int is narrowed with Int64()/Uint64() only where the value is known to fit — a dominating
+// IsInt64()/IsUint64() on the same value, or a BitLen() bound. Int64() of a value with 64 significant bits silently
+// returns its low 64 bits reinterpreted (2^64-1 becomes -1): the number written, or the key rebuilt, is another one.
+func bigNarrowRule(r *Run, rule string) {
+	r.Rule(rule, "(*big.Int).Int64/Uint64 only under IsInt64/IsUint64 (or a BitLen bound) on the same value", 1)
+	ord := map[string]int{}
+	for _, fn := range r.P.OwnFuncs() {
+		allInstrs(fn, func(in ssa.Instruction) {
+			call, ok := in.(*ssa.Call)
+			if !ok {
+				return
+			}
+			id := callID(&call.Call)
+			if id.pkg != "math/big" || id.recv != "Int" || (id.name != "Int64" && id.name != "Uint64") || len(call.Call.Args) != 1 {
+				return
+			}
+			v := call.Call.Args[0]
+			k := fnKey(fn) + "/big." + id.name
+			ord[k]++
+			key := fmt.Sprintf("%s#%d", k, ord[k])
+			fits := false
+			conds := dominatingConds(call.Block())
+			// the narrowing inside a closure: the guards that dominate the creation of the closure count as well
+			if fv, isFree := v.(*ssa.FreeVar); isFree && fn.Parent() != nil {
+				fi := -1
+				for i, q := range fn.FreeVars {
+					if q == fv {
+						fi = i
+					}
+				}
+				allInstrs(fn.Parent(), func(i2 ssa.Instruction) {
+					if mc, ok := i2.(*ssa.MakeClosure); ok && mc.Fn == ssa.Value(fn) && fi >= 0 && fi < len(mc.Bindings) {
+						v = mc.Bindings[fi]
+						conds = append(conds, dominatingConds(mc.Block())...)
+					}
+				})
+			}
+			for _, dc := range conds {
+				c, want := dc.cond, dc.outcome
+				if u, ok := c.(*ssa.UnOp); ok && u.Op == token.NOT {
+					c, want = u.X, !want
+				}
+				if g, ok := c.(*ssa.Call); ok && want && len(g.Call.Args) == 1 && sameSlice(g.Call.Args[0], v) {
+					gid := callID(&g.Call)
+					if gid.pkg == "math/big" && (gid.name == "Is"+id.name || (gid.name == "IsInt64" && id.name == "Int64")) {
+						fits = true
+					}
+				}
+				if bo, ok := c.(*ssa.BinOp); ok {
+					if g, ok := bo.X.(*ssa.Call); ok && callID(&g.Call).is("math/big", "Int", "BitLen") && sameSlice(g.Call.Args[0], v) {
+						if n, isK := constIntVal(bo.Y); isK {
+							// BitLen() < n / <= n on the taken edge
+							lim := int64(-1)
+							switch {
+							case bo.Op == token.LSS && want, bo.Op == token.GEQ && !want:
+								lim = n - 1
+							case bo.Op == token.LEQ && want, bo.Op == token.GTR && !want:
+								lim = n
+							}
+							if lim >= 0 && lim <= 63 {
+								fits = true // magnitude below 2^63: fits both
+							}
+						}
+					}
+				}
+			}
+			if fits {
+				r.OK(rule, key, call.Pos(), "narrowed under a dominating range test")
+			} else {
+				r.Bad(rule, key, call.Pos(), "%s narrows a *big.Int with %s() without a dominating Is%s()/BitLen test on that value: a value with more significant bits (2^63..2^64-1 for Int64) is silently truncated or reinterpreted, so the number written or the key rebuilt differs from the one held", fnKey(fn), id.name, id.name)
+			}
+		})
+	}
 }
